@@ -85,6 +85,19 @@ def step (s : St) (l : Line) : St × Verdict :=
     | some a, some c, some r, some as =>
       (s.set { a with queue := a.queue ++ [⟨c, r, as⟩] }, .ok)
     | _, _, _, _ => (s, .bad "job args")
+  | "task", [id, taskId, delay, jitter] =>
+    -- the operator's path: TaskPrepare(COMMAND_SLEEP) + AddJobToQueue.  The request id on the wire must be
+    -- the TaskID the operator was told (8 hexadecimal digits).
+    match s.find id, (ofHex taskId).map beNat, delay.toNat?, jitter.toNat? with
+    | some a, some tid, some d, some j =>
+      let cmd := (Gen.Consts.go_agent.lookup "COMMAND_SLEEP").getD 11
+      let s' := s.set { a with queue := a.queue ++ [⟨cmd, tid % 4294967296, [Arg.int d, Arg.int j]⟩] }
+      match l.impl with
+      | ["ok", req] =>
+        if req == s!"req={tid % 4294967296}" then (s', .ok)
+        else (s', .specFail "C02.request-id" s!"the operator was told task id {taskId} ({tid}), the queued job carries request id {req}")
+      | _ => (s', .diff "ok")
+    | _, _, _, _ => (s, .bad "task args")
   | "checkin", [id] =>
     match s.find id, l.impl with
     | some a, [rh] =>
